@@ -98,6 +98,17 @@ for ci in range(n_runs):
             ws = rng.sample(labels, rng.randint(1, nw)); ms.append(qp.probs(wires=ws)); md.append({"kind": "probs", "wires": ws})
         elif r < 0.45:
             ms.append(qp.state()); md.append({"kind": "state"})
+        elif r < 0.49 and nw >= 2:
+            # multi-term observable whose terms list their wires in different orders
+            terms = []
+            for _ in range(rng.randint(2, 3)):
+                ws = rng.sample(labels, rng.randint(1, min(3, nw)))
+                terms.append([rng.choice([1.0, 0.5, -1.5, 2.0]), [rng.choice("XYZ") for _ in ws], ws])
+            obs = qp.Hamiltonian([t[0] for t in terms], [qp.prod(*[getattr(qp, "Pauli" + c)(w) for c, w in zip(t[1], t[2])]) if len(t[2]) > 1 else getattr(qp, "Pauli" + t[1][0])(t[2][0]) for t in terms])
+            if rng.random() < 0.7:
+                ms.append(qp.expval(obs)); md.append({"kind": "expval_ham", "terms": terms})
+            else:
+                ms.append(qp.var(obs)); md.append({"kind": "var_ham", "terms": terms})
         elif r < 0.53:
             ws = rng.sample(labels, rng.randint(1, min(3, nw))); ms.append(qp.density_matrix(wires=ws)); md.append({"kind": "dm", "wires": ws})
         elif r < 0.58:
@@ -115,6 +126,14 @@ for ci in range(n_runs):
                 ms.append(qp.expval(o)); md.append({"kind": "expval", "word": word, "wires": ws})
             else:
                 ms.append(qp.var(o)); md.append({"kind": "var", "word": word, "wires": ws})
+    if ci in (0, 1):
+        # fixed corpus: multi-term observables whose terms list the same wires in different orders (expval and variance)
+        nw, labels, ref_ops = 2, [0, 1], None
+        ops = [qp.Hadamard(0), qp.S(0), qp.Hadamard(1), qp.CZ([0, 1])]
+        terms = [[1.0, ["Y", "Z"], [0, 1]], [0.5, ["X", "Z"], [1, 0]]]
+        obs = qp.Hamiltonian([t[0] for t in terms], [qp.prod(*[getattr(qp, "Pauli" + c)(w) for c, w in zip(t[1], t[2])]) for t in terms])
+        ms = [qp.expval(obs) if ci == 0 else qp.var(obs), qp.expval(qp.PauliX(1) @ qp.PauliZ(0))]
+        md = [{"kind": "expval_ham" if ci == 0 else "var_ham", "terms": terms}, {"kind": "expval", "word": ["X", "Z"], "wires": [1, 0]}]
     touched = {w for o in ops for w in o.wires}
     if any(d["kind"] == "state" for d in md):
         if True:
@@ -145,6 +164,23 @@ for ci in range(n_runs):
             idx = (smp @ (1 << np.arange(smp.shape[1])[::-1])).astype(int)
             run["sample"] = {"wires": ws, "shots": shots, "hist": np.bincount(idx, minlength=2 ** len(ws)).tolist(),
                              "valid": bool(np.isin(smp, [0, 1]).all())}
+    except NotExtractable as e:
+        run["status"], run["detail"] = "notex", str(e)[:200]
+    except Exception as e:
+        run["status"], run["detail"] = "error", f"{type(e).__name__}: {str(e)[:300]}"
+
+# (c2) tableau=True state output: every stabilizer row, with its sign, must stabilize the exact state
+for ci in range(12 if tier == "quick" else 120):
+    nw = rng.choice([1, 2, 3, 3, 4])
+    labels = list(range(nw))
+    ops = [qp.Identity(w) for w in labels] + rand_clifford(labels)
+    run = {"labels": labels, "dev_wires": labels, "ops": [repr(o) for o in ops], "meas": [{"kind": "tableau"}], "status": "ok", "n": nw}
+    runs.append(run)
+    try:
+        run["circuit"] = exact_circuit_gallina(ops, labels)
+        dev = qp.device("default.clifford", wires=labels, tableau=True)
+        res = qp.execute([qp.tape.QuantumScript(ops, [qp.state()])], dev)[0]
+        run["results"] = [jsonable(np.asarray(res, dtype=float))]
     except NotExtractable as e:
         run["status"], run["detail"] = "notex", str(e)[:200]
     except Exception as e:
